@@ -184,17 +184,32 @@ func init() {
 	})
 	// Fork(v): case split on the small-range integer v. The state is split into one state per
 	// feasible value, each tagged so that they are not merged again before the matching Join().
+	blockingIntrinsics[p+"Regroup"] = func(x *Exec, s *State, c *CallCtx) (Value, bool) {
+		// Regroup(v) = Join immediately followed by Fork(v), without merging in between: states
+		// regroup by the value v
+		s.Tags = nil
+		return blockingIntrinsics[p+"Fork"](x, s, c)
+	}
 	blockingIntrinsics[p+"Fork"] = func(x *Exec, s *State, c *CallCtx) (Value, bool) {
 		v := c.Args[0].(*Term)
 		if v.IsConst() {
 			s.Tags = append(s.Tags, int(v.K))
 			return v, false
 		}
-		if v.Hi-v.Lo > 256 {
-			x.fail("zzvrf.Fork on a value with range [%d,%d]", v.Lo, v.Hi)
+		var values []uint64
+		if leaves := iteLeaves(v, 64); leaves != nil {
+			values = leaves
+		} else {
+			if v.Hi-v.Lo > 256 {
+				showDepth = 8
+				x.fail("zzvrf.Fork on a value with range [%d,%d]: %s", v.Lo, v.Hi, x.tb.Show(v))
+			}
+			for k := v.Lo; k <= v.Hi; k++ {
+				values = append(values, k)
+			}
 		}
 		dst, _ := c.Instr.(*ssa.Call)
-		for k := v.Lo; k <= v.Hi; k++ {
+		for _, k := range values {
 			ns := s.clone()
 			kv := x.tb.BV(v.W, k)
 			if !x.constrain(ns, x.tb.Eq(v, kv)) {
@@ -236,6 +251,31 @@ func init() {
 		id := x.newObj(&ArrayVal{E: []Value{}}, s)
 		return &SliceVal{Ptr: x.ptrTo(id, 0), Len: l, Cap: l}
 	})
+}
+
+// iteLeaves returns the distinct constant leaves of an ite tree (nil if v is not such a tree or has
+// more than max leaves).
+func iteLeaves(v *Term, max int) []uint64 {
+	seen := map[uint64]bool{}
+	var out []uint64
+	var rec func(t *Term, d int) bool
+	rec = func(t *Term, d int) bool {
+		if t.IsConst() {
+			if !seen[t.K] {
+				seen[t.K] = true
+				out = append(out, t.K)
+			}
+			return len(out) <= max
+		}
+		if t.Op != OpIte || d == 0 {
+			return false
+		}
+		return rec(t.B, d-1) && rec(t.C, d-1)
+	}
+	if v.IsConst() || !rec(v, 16) {
+		return nil
+	}
+	return out
 }
 
 func (x *Exec) posOfCaller(s *State) string {
